@@ -97,7 +97,7 @@ theorem c02_genesis (g : Genesis) (h : g.wf = true) :
   D3 (`M_setPower_existing`, through the exact shape of the handler's result), by every admission
   (`M_setPower_admit`: `AcceptNewValidator` followed by the first assignment — no side condition), by CreateValidator
   and RemovePending (`M_create`, `M_rmPending`) and by every transaction that leaves the state unchanged; the EndBlocker takes it to `G` (`endBlock_G`: nothing but the power table and the recorded
-  total changes), x/slashing's BeginBlocker with present votes and PoA's BeginBlocker (which prunes the entries of the
+  total changes), x/slashing's BeginBlocker when it punishes nobody and PoA's BeginBlocker (which prunes the entries of the
   last block's SetPowers) take `G` to `M` again; InitChain of every well-formed genesis ends in `G` (`genesis_G`). -/
 
 /-- **C02 and C04 for every quiet history** (`QuietHistory`, decidable form `quietRunB` evaluated by the driver as
